@@ -150,6 +150,8 @@ class State:
         self.spurious_done = set()
         self.roots = {}              # harness-owned objects (manager, params, ...)
         self.counters = {}
+        self.fresh_n = 0             # per-state counter for fresh symbols (deterministic names => states merge)
+        self.lemmas = []             # definitional constraints (division lemmas, byte decompositions)
 
 class Machine:
     """One path of symbolic execution."""
@@ -167,7 +169,9 @@ class Machine:
         self.bodies_run = set()
         self.intrinsics_hit = set()
         self.generic_bindings = {}       # 'S' -> 'ClnDatastore' etc
-        self.trace_calls = False
+        self.summarize = ()              # names of pure scalar functions merged into one term per call
+        self.abstract_mul = False
+        self.trace_calls = bool(__import__('os').environ.get('VERIF_TRACE'))
         self.depth = 0
 
     @property
@@ -182,6 +186,89 @@ class Machine:
     @env.setter
     def env(self, v):
         self.st.env = v
+
+    def fresh(self, prefix, sort='I'):
+        self.st.fresh_n += 1
+        return sym.var('%s!%d' % (prefix, self.st.fresh_n), sort)
+
+    def mul(self, x, y):
+        """Product; symbolic x symbolic products are abstracted by an uninterpreted function when
+        abstract_mul is set (scenario harnesses: implementation and oracle share the same product term, so
+        equalities survive; every reported model is re-validated natively)."""
+        if self.abstract_mul and isinstance(x, T) and isinstance(y, T):
+            a, b = (x, y) if hash(x) <= hash(y) else (y, x)
+            p = sym.uf('mul', 'I', a, b)
+            memo = self.st.counters.setdefault('mulmemo', set())
+            if p not in memo:
+                memo.add(p)
+                self.add_lemma(sym.ge(p, 0))
+            return p
+        return sym.mul(x, y)
+
+    def violation_model(self, bad):
+        """Model of pc /\\ bad with exact arithmetic (products de-abstracted); None if the violation
+        only exists under the product abstraction."""
+        if not self.feasible(bad):
+            return None
+        if not self.abstract_mul:
+            return self.solver.model(self.pc, bad)
+        memo = {}
+        pc2 = [sym.exact_mul(c, memo) for c in self.pc]
+        return self.solver.model(pc2, sym.exact_mul(bad, memo))
+
+    def add_lemma(self, t):
+        """A definitional constraint: always satisfiable, survives function summarisation."""
+        self.st.lemmas.append(t)
+        self.st.pc.append(t)
+
+    def call_summarized(self, body, args):
+        """Execute a pure function on all of its paths and merge them into one ite-term (function-level
+        state merging).  The function must not write through its arguments."""
+        base = len(self.pc)
+        nlem = len(self.st.lemmas)
+        saved_ch = self.ch
+        results = []
+        work = [[]]
+        try:
+            while work:
+                prefix = work.pop()
+                self.ch = Chooser(prefix)
+                del self.st.pc[base:]
+                for l in self.st.lemmas[nlem:]:
+                    self.st.pc.append(l)
+                nb = len(self.st.pc)
+                try:
+                    v = self.call_body(body, [copy_value(a) if isinstance(a, (Adt, Seq)) else a for a in args])
+                    kind = 'ok'
+                except Panic as e:
+                    v = e
+                    kind = 'panic'
+                except Infeasible:
+                    work.extend(self.ch.alts)
+                    continue
+                cond = sym.and_(*[c for c in self.st.pc[nb:] if c not in self.st.lemmas])
+                results.append((kind, cond, v))
+                work.extend(self.ch.alts)
+        finally:
+            self.ch = saved_ch
+            del self.st.pc[base:]
+            for l in self.st.lemmas[nlem:]:
+                self.st.pc.append(l)
+        panics = [(c, v) for k, c, v in results if k == 'panic']
+        oks = [(c, v) for k, c, v in results if k == 'ok']
+        if panics:
+            pc_any = sym.or_(*[c for c, v in panics])
+            if self.branch(pc_any, 'summary.panic'):
+                raise panics[0][1]
+        if not oks:
+            raise Infeasible('summarised function has no returning path')
+        for c, v in oks:
+            if isinstance(v, (Adt, Seq, Ref)):
+                raise Unsupported('summarised function returns an aggregate')
+        out = oks[-1][1]
+        for c, v in reversed(oks[:-1]):
+            out = sym.ite(c, v, out)
+        return out
 
     # ---- path condition / branching -----------------------------------------
     def assume(self, cond):
@@ -551,13 +638,13 @@ class Machine:
             if ty is None:
                 raise Unsupported('WithOverflow type ' + str(dty))
             base = op[:-12]
-            exact = {'Add': sym.add, 'Sub': sym.sub, 'Mul': sym.mul}[base](x, y)
+            exact = {'Add': sym.add, 'Sub': sym.sub, 'Mul': self.mul}[base](x, y)
             span = 1 if base in ('Add', 'Sub') else None
             return Adt('tuple', None, {0: sym.wrap(exact, ty, span), 1: sym.out_of_range(exact, ty)})
         ty = sym.INT_TYPES.get(dty) if dty else None
         if op in ('Add', 'Sub', 'Mul', 'AddUnchecked', 'SubUnchecked', 'MulUnchecked'):
             base = op.replace('Unchecked', '')
-            exact = {'Add': sym.add, 'Sub': sym.sub, 'Mul': sym.mul}[base](x, y)
+            exact = {'Add': sym.add, 'Sub': sym.sub, 'Mul': self.mul}[base](x, y)
             if ty is None:
                 if isinstance(exact, int):
                     return exact
@@ -614,9 +701,19 @@ class Machine:
         if isinstance(y, int):
             if y == 0:
                 raise Panic('attempt to divide by zero')
-            q = sym.fresh('q')
-            r = sym.fresh('r')
-            self.pc.append(sym.and_(sym.eq(x, sym.add(sym.mul(q, y), r)), sym.le(0, r), sym.lt(r, y), sym.le(0, q)))
+            memo = self.st.counters.setdefault('divmemo', {})
+            key = (x, y)
+            qr = memo.get(key)
+            if qr is None:
+                # one quotient/remainder pair per distinct (dividend term, divisor): identical divisions
+                # share it, which keeps the non-linear part of the path condition small
+                k = len(memo)
+                q = sym.var('q!%d_%d' % (k, y))
+                r = sym.var('r!%d_%d' % (k, y))
+                memo[key] = (q, r)
+                self.add_lemma(sym.and_(sym.eq(x, sym.add(sym.mul(q, y), r)), sym.le(0, r), sym.lt(r, y), sym.le(0, q)))
+            else:
+                q, r = qr
             return q if op == 'Div' else r
         raise Unsupported('division by symbolic divisor')
 
@@ -794,11 +891,18 @@ class Machine:
                 return h[0]
         target = self.prog.resolve_fn(callee_text, self, args)
         if target is not None:
+            if self.summarize and target.name.rsplit('::', 1)[-1] in self.summarize:
+                return self.call_summarized(target, args)
             return self.call_body(target, args)
         f = self.intr.lookup(name)
         if f is not None:
             self.intrinsics_hit.add(name)
-            return f(self, args, CallInfo(callee_text, name, term, body))
+            try:
+                return f(self, args, CallInfo(callee_text, name, term, body))
+            except Unsupported as e:
+                if ' {in ' not in str(e):
+                    raise Unsupported('%s {in %s @ %s}' % (e, name, self.where()))
+                raise
         raise Unsupported('callee %s  (raw: %s) [%s]' % (name, callee_text[:200], self.where()))
 
     def call_closure(self, clo, args):
